@@ -192,8 +192,8 @@ def rule_d(ctx, fns):
         fns,
         "_already_set_up",
         exempt={
-            "stir::ScatterSimulation::set_use_cache": "only switches caching; it drops both caches itself and no set-up state depends on it",
-            "stir::ScatterSimulation::set_cache_enabled": "synonym of set_use_cache",
+            # (set_use_cache / set_cache_enabled were exempted here with the reason `no set-up state depends on it` until F42 showed
+            #  that wrong: the cache arrays are allocated by set_up())
             "stir::ScatterSimulation::set_output_proj_data_sptr": "output destination only; not an input of set_up",
             "stir::ScatterSimulation::set_output_proj_data": "output destination only; not an input of set_up",
         },
@@ -438,6 +438,156 @@ def rule_e_setup_keeps_settings(ctx, fns, cls="stir::ScatterSimulation"):
     return n
 
 
+def rule_f_derived_data_follows_settings(ctx, fns, cls="stir::ScatterSimulation"):
+    """Data that the object DERIVES from its settings (the scatter points from the scatter-point image, the threshold and the placement
+    flag; the scatter-point image that set_up() makes from the attenuation image, the zoom settings and the scanner) must follow every
+    change of those settings by the time set_up() has run.  Producers are the member functions reachable from set_up() that replace a
+    member wholesale; their inputs are the members they read (and the members set_up passes them as arguments).  For every public
+    set_* function that assigns one of those inputs: it calls the producer itself on every path, or set_up() calls the producer on
+    every successful path, or - when set_up() only produces if the derived member is empty - the setter empties the derived member
+    (unconditionally, or under a bool member that the producer sets to true on every path: `made here, not given by the user`)."""
+    RULE = "C16.f-derived-data-follows-settings"
+    by = {}
+    for f in fns:
+        if f.body is not None and f.cls == cls:
+            by.setdefault(f.qn, f)
+    su = by.get(cls + "::set_up")
+    if su is None:
+        ctx.unrec(cls, "set_up() not found")
+        return 0
+
+    def this_calls(f):
+        return [c for c in f.calls() if c.callee in by and c.call_object() is not None and c.call_object().strip().k == "CXXThisExpr"]
+
+    def wholesale_writes(f):
+        out = {}
+        for m in f.walk():
+            for e in written_lvalues(m):
+                r = root_of_lvalue(e)
+                if r.startswith("this.") and r != "this()":
+                    if (m.k in ("BinaryOperator", "CXXOperatorCallExpr") and m.op == "=" and key(m.c[0].strip()) == r) or (m.k == "CXXMemberCallExpr" and (m.callee or "").split("::")[-1] in ("reset", "resize", "clear", "swap", "push_back") and key(m.c[0].strip()) == r):
+                        out.setdefault(r[5:], []).append(m)
+        return out
+
+    def fields_read(f, seen=None, stop=()):
+        """members whose VALUE f uses (a member that is only assigned is not read); calls to functions in `stop` are not followed"""
+        seen = seen if seen is not None else set()
+        out = set()
+        for m in f.walk():
+            if m.k == "MemberExpr" and m.get("mk") == "field" and m.c and m.c[0].strip().k == "CXXThisExpr":
+                par = m.parent
+                if par is not None and par.k == "BinaryOperator" and par.op == "=" and par.c and par.c[0] is m:
+                    continue
+                out.add(m.get("n"))
+        for c in this_calls(f):
+            if c.callee not in seen and c.callee not in stop:
+                seen.add(c.callee)
+                out |= fields_read(by[c.callee], seen, stop)
+        return out
+
+    IGNORE = {"_already_set_up", "cached_activity_integral_scattpoint_det", "cached_attenuation_integral_scattpoint_det", "detector_efficiency_no_scatter", "max_single_scatter_cos_angle"}
+    # producers: functions called (transitively) from set_up on this that replace a member wholesale
+    producers = {}
+    todo, seen = [su], {su.qn}
+    while todo:
+        f = todo.pop()
+        for c in this_calls(f):
+            g = by[c.callee]
+            if g.qn in seen or g.short.startswith(("remove_cache", "initialise_cache", "check_", "set_")):
+                continue
+            seen.add(g.qn)
+            todo.append(g)
+            ww = {d: ms for d, ms in wholesale_writes(g).items() if d not in IGNORE}
+            # only the member(s) this function is about: written wholesale and not merely saved/restored settings of arithmetic type
+            ww = {d: ms for d, ms in ww.items() if not re.fullmatch(r"(const )?(int|float|double|bool|unsigned int)", (ms[0].c[0].strip().type or "").strip())}
+            if not ww:
+                continue
+            reads = None
+            producers[g.qn] = [set(ww), reads, c]
+    # inputs of a producer: what its own code reads - not what a nested producer reads for ITS output
+    for q, rec in producers.items():
+        g, c = by[q], rec[2]
+        reads = fields_read(g, None, set(producers) - {q}) - rec[0] - IGNORE
+        for a in c.call_args():
+            for m in a.walk():
+                if m.k == "MemberExpr" and m.get("mk") == "field" and m.c and m.c[0].strip().k == "CXXThisExpr":
+                    reads.add(m.get("n"))
+        # a bool member the producer sets to true on every path records HOW the derived member came about - it is not an input
+        gcfg = CFG(g)
+        for m in g.walk():
+            if m.k == "BinaryOperator" and m.op == "=" and key(m.c[1].strip()) == "true" and key(m.c[0].strip()).startswith("this.") and m.i in gcfg.pos:
+                if gcfg.paths_avoiding([(gcfg.entry, -1)], lambda x, mi=m.i: x.i == mi) is None:
+                    reads.discard(key(m.c[0].strip())[5:])
+        rec[1] = reads
+    ctx.stats["derived_data_producers"] = {q.split("::")[-1]: {"derives": sorted(d), "from": sorted(r)} for q, (d, r, _c) in producers.items()}
+    if len(producers) < 2:
+        ctx.unrec(cls, "fewer than two producers of derived data found below set_up() (%s)" % sorted(producers))
+        return 0
+
+    def calls_closure(f, target, seen=None):
+        """call nodes in f (on this) that reach `target`"""
+        seen = seen if seen is not None else set()
+        out = []
+        for c in this_calls(f):
+            if c.callee == target:
+                out.append(c)
+            elif c.callee not in seen:
+                seen.add(c.callee)
+                if calls_closure(by[c.callee], target, seen) and _on_every_path(by[c.callee], target, by, this_calls):
+                    out.append(c)
+        return out
+
+    sucfg = CFG(su)
+    n = 0
+    for pq, (derived, reads, site) in sorted(producers.items()):
+        P = by[pq]
+        # does set_up reach the producer on every successful path?  (success = return Succeeded::yes)
+        rets = [m for m in su.walk() if m.k == "ReturnStmt" and "Succeeded::yes" in key(m) and m.i in sucfg.pos]
+        reach = {c.i for c in calls_closure(su, pq)}
+        always = bool(rets) and sucfg.must_pass_from_entry(rets, lambda x: x.i in reach) is None
+        # or only when the derived member is empty
+        guarded_by_empty = any(a.k == "IfStmt" and a.c and re.search(r"is_null_ptr\(this\.(%s)\)|\(== this\.(%s)" % ("|".join(derived), "|".join(derived)), key(a.c[0])) for c in this_calls(su) if c.i in reach for a in c.ancestors())
+        # bool members the producer sets to true on every path
+        pflags = set()
+        pcfg = CFG(P)
+        for m in P.walk():
+            if m.k == "BinaryOperator" and m.op == "=" and key(m.c[1].strip()) == "true" and key(m.c[0].strip()).startswith("this.") and m.i in pcfg.pos:
+                if pcfg.paths_avoiding([(pcfg.entry, -1)], lambda x, mi=m.i: x.i == mi) is None:
+                    pflags.add(key(m.c[0].strip()))
+        for f in sorted({(g.file, g.line): g for g in fns if g.body is not None and g.cls == cls}.values(), key=lambda g: (g.file, g.line)):
+            if not f.short.startswith("set_") or f.short in ("set_up", "set_defaults") or f.d.get("access", 0) != 0 or not f.cfg_raw or not f.params:
+                continue
+            ws = wholesale_writes(f)
+            hit = sorted(set(ws) & reads)
+            if not hit or set(ws) & derived and not hit:
+                continue
+            fcfg = CFG(f)
+            wn = [m for h in hit for m in ws[h] if m.i in fcfg.pos]
+            if not wn:
+                continue
+            own = {c.i for c in calls_closure(f, pq)}
+            via_own = bool(own) and fcfg.must_pass_before_exit(wn, lambda x: x.i in own) is None
+            empties = [m for d in derived for m in ws.get(d, []) if m.k == "CXXMemberCallExpr" and (m.callee or "").split("::")[-1] in ("reset", "clear") and not m.call_args()]
+            emptied = False
+            for m in empties:
+                conds = [a.c[0] for a in m.ancestors() if a.k == "IfStmt" and a.c]
+                if all(key(c.strip()) in pflags for c in conds):
+                    emptied = True
+            ok = via_own or always or (guarded_by_empty and emptied)
+            how = "calls %s itself" % P.short if via_own else ("set_up() runs %s on every successful path" % P.short if always else "empties %s, which set_up() then makes again" % "/".join(sorted(derived)))
+            ctx.ob(RULE, f.qn + "(" + f.sig[:40] + ")", "%s<-%s" % ("/".join(sorted(derived)), ",".join(hit)), ok, wn[0].where(), "%s follows the new %s: %s" % ("/".join(sorted(derived)), ", ".join(hit), how) if ok else "%s is derived from %s (by %s), but after this setter neither the setter nor set_up() derives it again%s: the object keeps what was derived for the previous setting and differs from a freshly configured one" % ("/".join(sorted(derived)), ", ".join(hit), P.short, " (set_up() only does so when it is empty, and the setter does not empty it)" if guarded_by_empty else ""))
+            n += 1
+    return n
+
+
+def _on_every_path(f, target, by, this_calls):
+    cfg = CFG(f)
+    ids = {c.i for c in this_calls(f) if c.callee == target}
+    if not ids:
+        return False
+    return cfg.paths_avoiding([(cfg.entry, -1)], lambda x: x.i in ids) is None
+
+
 def uniq(fns):
     seen, out = set(), []
     for f in fns:
@@ -474,6 +624,8 @@ def run(ctx):
     rule_d(ctx, allf + [f for f in uniq(us[0].functions) if (f.file, f.line) not in {(g.file, g.line) for g in allf}])
     rule_e_setup_keeps_settings(ctx, allf)
     ctx.require_count("C16.e-setup-keeps-settings", 6)
+    rule_f_derived_data_follows_settings(ctx, allf)
+    ctx.require_count("C16.f-derived-data-follows-settings", 8)
     ctx.require_count("C16.a-exchange-symmetry", 3)
     ctx.require_count("C16.b-linear-in-activity", 3)
     ctx.require_count("C16.c-cache-equivalence", 2)
